@@ -62,6 +62,11 @@ func ValidateSchemaDocument(sd *SchemaDocument) (*Schema, error) {
 		switch def.Kind {
 		case Union:
 			for _, t := range def.Types {
+				// undefined members are reported by validateDefinition; they must
+				// not leave nil entries behind that later checks dereference
+				if schema.Types[t] == nil {
+					continue
+				}
 				schema.AddPossibleType(def.Name, schema.Types[t])
 				schema.AddImplements(t, def)
 			}
